@@ -92,11 +92,7 @@ class IterMonitor(Monitor):
 
     def after(self, token, args, kwargs, result):
         lat = args[0]
-        try:
-            view_ctx = common._ties.get(id(lat))
-            ctx = view_ctx[1] if view_ctx and view_ctx[0]() is lat else getattr(lat, '_context', None)
-        except Exception:
-            ctx = None
+        ctx = common.context_of(lat)
         if ctx is None:
             COL.count('untied_lattice_skipped')
             return
@@ -117,8 +113,7 @@ class LenMonitor(Monitor):
 
     def after(self, token, args, kwargs, result):
         lat = args[0]
-        ent = common._ties.get(id(lat))
-        ctx = ent[1] if ent and ent[0]() is lat else getattr(lat, '_context', None)
+        ctx = common.context_of(lat)
         if ctx is None:
             COL.count('untied_lattice_skipped')
             return
